@@ -750,15 +750,17 @@ def inject_boom(rng, case):
     bodies = _bodies(case["ops"], [])
     if not bodies:
         return case
-    b = rng.choice(bodies)
-    b.insert(rng.randrange(0, len(b) + 1), {"op": "boom"})
+    # prefer bodies that do something before they fail (what they submitted must survive the panic)
+    busy = [x for x in bodies if len(x) >= 1]
+    b = rng.choice(busy if busy and rng.random() < 0.8 else bodies)
+    b.insert(len(b) if rng.random() < 0.6 else rng.randrange(0, len(b) + 1), {"op": "boom"})
     case["boom"] = True
     # half of the time the frame owning the Stakker is unwound too (Stakker dropped while panicking)
     case["unwind_stakker"] = rng.random() < 0.5
     return case
 
 
-BOOM_RATE = {"q": 0.08, "qbig": 0.08, "qgrow": 0.1, "a": 0.06, "t": 0.03}
+BOOM_RATE = {"q": 0.2, "qbig": 0.1, "qgrow": 0.12, "a": 0.08, "t": 0.04, "qdeep": 0.1}
 
 
 def gen_cases(seed, plan, props):
